@@ -1,6 +1,6 @@
 #!/usr/bin/env python3
 """Writes one prompt per property for a new round of independently seeded changes.
-usage: seedprompts.py <round-dir>   (e.g. /tmp/seed5): creates <round-dir>/<Cxx>.prompt.txt; worktrees are <round-dir>/<Cxx>."""
+usage: seedprompts.py <round-dir> [extra-text-file]   (e.g. /tmp/seed5 tools/seed_prompt_round5_extra.txt): creates <round-dir>/<Cxx>.prompt.txt; worktrees are <round-dir>/<Cxx>."""
 import json, re, os, sys
 here = os.path.dirname(os.path.abspath(__file__)) + "/.."
 rd = sys.argv[1]
@@ -12,10 +12,11 @@ for seeds, what, _ in rows:
     for sid in re.findall(r'C\d\d[a-z]\d?', seeds):
         desc.setdefault(sid[:3], []).append(re.sub(r'`', '', what))
 tmpl = open(here + '/tools/seed_prompt_template.txt').read()
+extra = open(sys.argv[2]).read() if len(sys.argv) > 2 else ''
 os.makedirs(rd + '/out', exist_ok=True)
 for pid, p in props.items():
     text = f"{pid} — {p['title']}\n\n{p['statement']}\n\nQuantifier: {p['quantifier']['text']}\n"
     already = "\n".join("- " + d for d in dict.fromkeys(desc.get(pid, []))) or "- (nothing yet)"
-    out = tmpl.replace('{DIR}', f'{rd}/{pid}').replace('{OUT}', f'{rd}/out/{pid}').replace('{PROPERTY}', text).replace('{ALREADY}', already)
+    out = tmpl.replace('{DIR}', f'{rd}/{pid}').replace('{OUT}', f'{rd}/out/{pid}').replace('{PROPERTY}', text).replace('{ALREADY}', already) + extra
     open(f'{rd}/{pid}.prompt.txt', 'w').write(out)
 print('written', len(props))
